@@ -41,7 +41,8 @@ CHECKS["C02"] = dict(
     level_note="Trusted: harness/common/ref.go (reference encoder), Canon/SameValue (nil and empty slices identified). Values outside the quantified ranges (MAC != 6 bytes, names with NUL) are excluded as the wire format cannot carry them.",
     technique="rapid property-based round trip + differential against an independent reference encoder; native fuzzing of the decode-first half (thorough)",
     assumptions=["'accepts the whole encoding' is read as: Unpack of the complete encoding returns no error and consumes no more than its length"],
-    jobs=[dict(name="pure", pkg="./pure", go=GO, test="TestC02", shards=(2, 16), checks=(40000, 600000), timeout=(300, 3000))],
+    jobs=[dict(name="pure", pkg="./pure", go=GO, test="TestC02", shards=(2, 16), checks=(40000, 600000), timeout=(300, 3000)),
+          dict(name="fuzz-knxnet", kind="fuzz", pkg="./pure", go=GO, target="FuzzKnxnetUnpack", fuzztime=60)],
 )
 
 CHECKS["C01"] = dict(
@@ -57,5 +58,7 @@ CHECKS["C01"] = dict(
     level_note="Trusted: harness/common/ref.go for the positions of the length octets; the watchdog limit (4 s for a microsecond-scale call). Inputs above 1024 bytes are not generated.",
     technique="rapid constructive mutation + exhaustive truncation/length sweeps + go native fuzzing, four-way buffer differential oracle; live UDP/TCP receiver histories with markers",
     assumptions=["a hang is declared when one synchronous decode call has not returned after 4 s"],
-    jobs=[dict(name="pure", pkg="./pure", go=GO, test="TestC01", shards=(4, 16), checks=(30000, 400000), scale=(1, 4), timeout=(300, 3000))],
+    jobs=[dict(name="pure", pkg="./pure", go=GO, test="TestC01", shards=(4, 16), checks=(30000, 400000), scale=(1, 4), timeout=(300, 3000)),
+          dict(name="fuzz-knxnet", kind="fuzz", pkg="./pure", go=GO, target="FuzzKnxnetUnpack", fuzztime=90),
+          dict(name="fuzz-cemi", kind="fuzz", pkg="./pure", go=GO, target="FuzzCemiUnpack", fuzztime=60)],
 )
